@@ -61,6 +61,11 @@ def cells(tier):
     for op, kw in (('roItemMoveMultiple', {'k': 2}), ('EAItemMove', {}), ('roItemDelete', {'k': 2}), ('roItemReplace', {}),
                    ('EAItemSwap', {'k': 2}), ('roItemInsert', {})):
         out.append(mk(op, 3, gap=None, idlen='1-2', rname='prefix-ids', timeout=T, **kw))
+    # the same from a state reached through a roReplace
+    for op, kw in (('roItemMoveMultiple', {'k': 2}), ('EAItemMove', {}), ('roItemDelete', {}), ('roItemReplace', {}),
+                   ('EAItemSwap', {'k': 2}), ('roItemInsert', {}), ('EAItemInsert', {'tk': 'blank'}), ('EAItemDelete', {'k': 2}),
+                   ('EAItemReplace', {})):
+        out.append(mk(op, 3, gap=None, rname='any', timeout=T, extra={'prehist': True}, **kw))
     # addressed story is the second one; story without slug / with leading paragraph
     for op in ('roItemMoveMultiple', 'EAItemMove', 'roItemInsert', 'roItemReplace', 'roItemDelete', 'EAItemDelete'):
         out.append(mk(op, 3, w=1, gap=None, rname='second-story', timeout=T))
